@@ -108,6 +108,17 @@ def run(res, tier, seed):
         if shape.endswith(":include"):
             continue
         cases.append((t, ("ok", None) if shape == "ok" else ("finding-class", shape)))
+    # a function whose only return is on the fall-through side of a conditional branch whose taken side leaves
+    # the program: every branch mnemonic, the zero register on either side (seed C16-t took `bgeu zero, rs` -
+    # what `bleu rs, zero` expands to - for a jump that is always taken: the return became unreachable and the
+    # analysis stopped with the generic error). None of these branches is unconditional.
+    for br in ("beq", "bne", "blt", "bge", "bltu", "bgeu", "bgt", "ble", "bgtu", "bleu"):
+        for ops in ("a0, zero", "zero, a0", "a0, a1", "x0, a1"):
+            cases.append((f"main:\n    li a0, 1\n    li a1, 2\n    jal f\n    li a7, 10\n    ecall\nf:\n    addi a0, a0, 1\n"
+                          f"    {br} {ops}, quit\n    ret\nquit:\n    li a7, 93\n    ecall\n", ("ok", None)))
+    for br in ("beqz", "bnez", "bltz", "bgez", "bgtz", "blez"):
+        cases.append((f"main:\n    li a0, 1\n    jal f\n    li a7, 10\n    ecall\nf:\n    addi a0, a0, 1\n"
+                      f"    {br} a0, quit\n    ret\nquit:\n    li a7, 93\n    ecall\n", ("ok", None)))
     inputs = [[("m.s", t)] for t, _ in cases]
     impl, models, bad = correspondence("parse,cfg,run", inputs)
     first = None
